@@ -447,7 +447,8 @@ def setOpt (m : List (Bytes × Option Event)) (k : Bytes) (v : Option Event) : L
   (m.filter (fun x => x.1 != k)) ++ [(k, v)]
 
 def V1State.addAuthEvent (s : V1State) (e : Event) : V1State :=
-  if e.type == b!"m.room.create" then (if e.stateKeyEquals [] then { s with create := some e } else s)
+  if e.stateKey.isNone then s     -- only state events can be auth events
+  else if e.type == b!"m.room.create" then (if e.stateKeyEquals [] then { s with create := some e } else s)
   else if e.type == b!"m.room.power_levels" then (if e.stateKeyEquals [] then { s with pl := some e } else s)
   else if e.type == b!"m.room.join_rules" then (if e.stateKeyEquals [] then { s with jr := some e } else s)
   else if e.type == b!"m.room.member" then { s with members := setOpt s.members (e.stateKey.getD []) (some e) }
